@@ -549,6 +549,21 @@ func cmdCalls() {
 			for _, ins := range b.Instrs {
 				if c, ok := ins.(ssa.CallInstruction); ok {
 					edge(c.Common().StaticCallee())
+					if cc := c.Common(); cc.IsInvoke() {
+						// interface dispatch: every library type that implements the interface (third column "dyn")
+						if it, ok := types.Unalias(cc.Value.Type()).Underlying().(*types.Interface); ok {
+							for _, impl := range implementations(w, it, cc.Method) {
+								if inLib(impl) {
+									l := from + "\t" + strings.TrimPrefix(funcKey(impl), pre) + "\tdyn"
+									if !seen[l] {
+										seen[l] = true
+										fmt.Println(l)
+									}
+									visit(impl)
+								}
+							}
+						}
+					}
 				}
 				for _, op := range ins.Operands(nil) {
 					if op == nil || *op == nil {
@@ -564,6 +579,35 @@ func cmdCalls() {
 	for _, k := range keys {
 		visit(w.fns[k])
 	}
+}
+
+// implementations: the methods of library types (T or *T) through which a call of m on interface it may be dispatched.
+func implementations(w *World, it *types.Interface, m *types.Func) []*ssa.Function {
+	var out []*ssa.Function
+	for _, p := range w.prog.AllPackages() {
+		if !strings.HasPrefix(p.Pkg.Path(), "github.com/Azbesciak/RealDecisionMaker/lib") {
+			continue
+		}
+		for _, mem := range p.Members {
+			tm, ok := mem.(*ssa.Type)
+			if !ok {
+				continue
+			}
+			named := tm.Type()
+			if _, isIface := named.Underlying().(*types.Interface); isIface {
+				continue
+			}
+			for _, t := range []types.Type{named, types.NewPointer(named)} {
+				if types.Implements(t, it) {
+					if fn := w.prog.LookupMethod(t, m.Pkg(), m.Name()); fn != nil {
+						out = append(out, fn)
+					}
+					break
+				}
+			}
+		}
+	}
+	return out
 }
 
 // cmdWire lists every wire obligation that does not hold on the current tree (a development aid: the pins are written from
